@@ -209,6 +209,13 @@ def main_check(a) -> int:
     infos = []
     for unit in cfg.get("vx", []):
         o, i = run_vx_unit(unit, a.repo, scratch, a.tier, [])
+        only = (cfg.get("only") or {}).get(unit)
+        if only:
+            # this property rests on part of the unit only (the rest belongs to another property's chain)
+            dropped = [x.name for x in o if not x.name.startswith("<") and not re.search(only, x.name)]
+            o = [x for x in o if x.name.startswith("<") or re.search(only, x.name)]
+            i["obligations_counted_for_this_property"] = only
+            i["obligations_of_unit_not_counted"] = dropped
         obls += o
         infos.append(i)
     ax_info = None
